@@ -27,7 +27,11 @@ fn tier_of(s: &str) -> Tier {
 fn main() {
     let args: Vec<String> = std::env::args().collect();
     // loom panics are expected events here; keep stderr quiet
-    std::panic::set_hook(Box::new(|_| {}));
+    if std::env::var("LV_VERBOSE_PANIC").is_ok() {
+        std::panic::set_hook(Box::new(|i| eprintln!("PANIC: {}", i)));
+    } else {
+        std::panic::set_hook(Box::new(|_| {}));
+    }
     let code = match args.get(1).map(|s| s.as_str()) {
         Some("worker") => {
             driver::worker_main();
